@@ -128,7 +128,9 @@ func VerifC13_State() {
 				wanted = append(wanted, indices[i])
 			}
 		}
-		wanted = append(wanted, 999) // an index Vouch does not manage
+		if vnd.Bool("also-an-index-vouch-does-not-manage") {
+			wanted = append(wanted, 999)
+		} // (otherwise possibly the empty list: what the attester asks with when everybody has attested already)
 	}
 	var got map[phase0.ValidatorIndex]e2wtypes.Account
 	var err error
@@ -258,7 +260,7 @@ func (a *c13Locked) Unlock(_ context.Context, passphrase []byte) error {
 }
 func (a *c13Locked) IsUnlocked(_ context.Context) (bool, error) { return a.unlocked, nil }
 
-var c13Specifiers = []string{"Wallet 1", "Wallet 1/Account 1", "Wallet 1/Account [0-9]", "Wallet 1/^Acc.*$", "Wallet 1/^Account 1$", "Wallet 2", "Wallet 1/.*2"}
+var c13Specifiers = []string{"Wallet 1", "Wallet 1/Account 1", "Wallet 1/Account [0-9]", "Wallet 1/^Acc.*$", "Wallet 1/^Account 1$", "Wallet 2", "Wallet 1/.*2", "Wallet 1/a.***"}
 var c13Names = []string{"Account 1", "Account 10", "Account 2", "Extra Account 1", "Acc"}
 
 func c13FullMatch(spec, wallet, account string) bool {
@@ -267,7 +269,9 @@ func c13FullMatch(spec, wallet, account string) bool {
 	if len(parts) == 2 && parts[1] != "" {
 		a = strings.TrimSuffix(strings.TrimPrefix(parts[1], "^"), "$")
 	}
-	return parts[0] == wallet && regexp.MustCompile("^(?:"+a+")$").MatchString(account)
+	// (a specifier whose expression does not compile is dropped: it admits nothing)
+	re, err := regexp.Compile("^(?:" + a + ")$")
+	return err == nil && parts[0] == wallet && re.MatchString(account)
 }
 
 // VerifC13_Specifiers: a keystore account of wallet "Wallet 1" is used exactly
